@@ -2985,3 +2985,229 @@ def err7(ctx):
         raise AnchorMissing("ERR-7: %d of %d caret strings could not be resolved to a linear form" % (unresolved, n))
     r.analysed = {"caret_strings": n, "unresolved": unresolved}
     return r
+
+
+# ---------------------------------------------------------------- CLI-12: -l / -w replace what the json holds, whole
+
+def cli12(ctx):
+    """`asca run -j proj.json -l x.alias` uses the aliases of x.alias and nothing of the json's; `-w` likewise replaces the
+    json's words. In get_input the json's `into` / `from` are read only where `alias` is known to be None, and `words`
+    only where `input` is None."""
+    r = RuleResult("CLI-12", "run::get_input: AscaJson.into / .from are read only in the branch where the -l option is None, AscaJson.words only where -w is None", floor=3)
+    b = ctx.fn(ctx.bin, "asca_bin::cli::run::get_input")
+    root = b.hir["body"]
+    par = hirq.parent_map(root)
+    pid = {}
+    for p in b.hir.get("params") or []:
+        if p.get("p") == "bind":
+            pid[p["name"]] = p["hid"]
+    WANT = {"into": "alias", "from": "alias", "words": "input"}
+    if not {"alias", "input"} <= set(pid):
+        raise AnchorMissing("CLI-12: get_input has no parameters `alias` / `input`")
+
+    def is_param(e, hid):
+        e = hirq.strip(e)
+        while isinstance(e, dict) and e.get("e") == "mcall" and e["name"] in ("as_ref", "as_deref", "as_mut", "clone", "take") and not e["args"]:
+            e = hirq.strip(e["recv"])
+        return isinstance(e, dict) and e.get("e") == "path" and e.get("hid") == hid
+
+    def under_none(node, hid):
+        child, x = node, par.get(id(node))
+        while x is not None:
+            k = x.get("e")
+            if k == "if":
+                c = hirq.strip(x["cond"])
+                in_then = any(y is child for y in hirq.walk(x["then"])) or x["then"] is child
+                in_else = x.get("else") is not None and (any(y is child for y in hirq.walk(x["else"])) or x["else"] is child)
+                if c.get("e") == "letcond" and is_param(c["init"], hid):
+                    pk = [q.get("path") for q in hirq.flat_pats(c["pat"])]
+                    if in_else and pk == ["core::option::Option::Some"]:
+                        return True
+                    if in_then and pk == ["core::option::Option::None"]:
+                        return True
+                if c.get("e") == "mcall" and is_param(c["recv"], hid):
+                    if (c["name"] == "is_none" and in_then) or (c["name"] == "is_some" and in_else):
+                        return True
+                if c.get("e") == "unary" and c.get("op") == "Not":
+                    d = hirq.strip(c["a"])
+                    if d.get("e") == "mcall" and is_param(d["recv"], hid) and ((d["name"] == "is_some" and in_then) or (d["name"] == "is_none" and in_else)):
+                        return True
+            if k == "match" and is_param(x["scrut"], hid):
+                for arm in x["arms"]:
+                    if arm["body"] is child or any(y is child for y in hirq.walk(arm["body"])):
+                        pk = [q.get("path") for q in hirq.flat_pats(arm["pat"])]
+                        if pk == ["core::option::Option::None"]:
+                            return True
+            child, x = x, par.get(id(x))
+        return False
+
+    n = 0
+    reads = []
+    for x in hirq.walk(root):
+        if x["e"] == "field" and x["name"] in WANT and (x.get("of_ty") or "").lstrip("&").replace("mut ", "").endswith("cli::AscaJson"):
+            reads.append((x["name"], x))
+        if x["e"] in ("let", "letcond") or x["e"] == "match":
+            pats = [x["pat"]] if x["e"] != "match" else [a["pat"] for a in x["arms"]]
+            for pt in pats:
+                for q in hirq.walk_pats(pt):
+                    if q.get("p") == "struct" and (q.get("path") or "").endswith("cli::AscaJson"):
+                        for f in q.get("fields") or []:
+                            fname, fp = (f[0], f[1]) if isinstance(f, list) else (f.get("name"), f.get("pat"))
+                            if fname in WANT and isinstance(fp, dict):
+                                hids = {z["hid"] for z in hirq.walk_pats(fp) if z.get("p") == "bind" and "hid" in z}
+                                for y in hirq.walk(root):
+                                    if y["e"] == "path" and y.get("hid") in hids:
+                                        reads.append((fname, y))
+    for fname, x in reads:
+        n += 1
+        ok = under_none(x, pid[WANT[fname]])
+        r.inst("get_input: the json's `%s` is read where `%s` is None" % (fname, WANT[fname]), fn_loc(b, x.get("ln")), "ok" if ok else "report")
+        if not ok:
+            r.report("CLI-12|get_input|%s" % fname, fn_loc(b, x.get("ln")), b.path,
+                     "the json's `%s` is used on a path where the `%s` option may be given: `asca run -j p.json %s f` must take %s from the file alone, but here what the json stores can still reach the run (e.g. an alias file with an empty @from section falls back to the json's deromanisers)"
+                     % (fname, WANT[fname], "-l" if WANT[fname] == "alias" else "-w", "the aliases" if WANT[fname] == "alias" else "the words"))
+    if n < 3:
+        raise AnchorMissing("CLI-12: %d reads of AscaJson.into/.from/.words in get_input (expected 3)" % n)
+    return r
+
+
+# ---------------------------------------------------------------- CLI-13: a filter starts from the whole rule file
+
+_SRC_PASS = {"clone", "cloned", "unwrap", "expect", "to_vec", "to_owned", "unwrap_or_default", "as_ref", "as_slice", "iter", "into_iter", "collect", "copied", "get",
+             "get_mut", "borrow", "as_deref", "unwrap_or_else", "unwrap_or", "ok", "map", "and_then", "into"}
+
+
+def _value_sources(e, binds, depth=0):
+    """terminal producers a value is built from: ("call", path) | ("self", field) | ("param", name) | ("other", what)"""
+    e = hirq.strip(e)
+    if not isinstance(e, dict) or depth > 16:
+        return {("other", "?")}
+    k = e.get("e")
+    if k == "path":
+        if "hid" in e:
+            s = binds.src.get(e["hid"])
+            if s is None:
+                return {("other", "binding `%s`" % e.get("local"))}
+            if s[0] == "param":
+                return {("param", s[1])}
+            if s[0] == "expr":
+                return _value_sources(s[1], binds, depth + 1)
+            return {("other", "closure argument `%s`" % e.get("local"))}
+        return {("other", e.get("path") or "?")}
+    if k == "mcall":
+        out = set()
+        if e["name"] in _SRC_PASS:
+            out |= _value_sources(e["recv"], binds, depth + 1)
+            for a in e["args"]:
+                c = hirq.strip(a)
+                if isinstance(c, dict) and c.get("e") == "closure":
+                    out |= _value_sources(c["body"], binds, depth + 1)
+                elif e["name"] in ("unwrap_or", "unwrap_or_else"):
+                    out |= _value_sources(a, binds, depth + 1)
+            return out
+        return {("call", e.get("def") or e["name"])}
+    if k == "call":
+        f = hirq.strip(e["f"])
+        p = f.get("path") or ""
+        if (p in ("core::option::Option::Some", "core::result::Result::Ok") or p.endswith(("Try::branch", "IntoIterator::into_iter", "From::from", "Into::into"))) and e["args"]:
+            return _value_sources(e["args"][0], binds, depth + 1)
+        return {("call", p)}
+    if k == "match":
+        if "TryDesugar" in (e.get("src") or ""):
+            return _value_sources(e["scrut"], binds, depth + 1)
+        out = set()
+        for arm in e["arms"]:
+            out |= _value_sources(arm["body"], binds, depth + 1)
+        return out
+    if k == "if":
+        out = _value_sources(e["then"], binds, depth + 1)
+        if e.get("else") is not None:
+            out |= _value_sources(e["else"], binds, depth + 1)
+        return out
+    if k == "block":
+        return _value_sources(e["tail"], binds, depth + 1) if e.get("tail") is not None else {("other", "()")}
+    if k == "field":
+        a = hirq.strip(e["a"])
+        if a.get("e") == "path" and a.get("local") == "self":
+            return {("self", e["name"])}
+        return _value_sources(a, binds, depth + 1)
+    if k in ("unary", "cast", "index"):
+        return _value_sources(e["a"], binds, depth + 1)
+    if k in ("ret", "break", "continue"):
+        return set()
+    if k == "macro" or k == "other":
+        return {("other", (e.get("src") or e.get("text") or "expression")[:40])}
+    return {("other", k)}
+
+
+def cli13(ctx):
+    """A `!` / `~` filter selects from the rule groups *of the file*: in the config parser's get_entry the list handed to
+    parse_entry / Entry::from is what parse_rsca returned for that file -- or a copy kept in a parser field whose every
+    insert stores such an unfiltered list. It is never a list that already went through a filter (an Entry's rules)."""
+    r = RuleResult("CLI-13", "config::Parser::get_entry: the rule list given to parse_entry / Entry::from comes from parse_rsca (or from a parser field that is only ever filled from parse_rsca), never from an already filtered Entry", floor=2)
+    bn = ctx.bin
+    b = ctx.fn(bn, "asca_bin::cli::config::parser::Parser::get_entry")
+    PARSE = "asca_bin::cli::parse::parse_rsca"
+    binds = Bindings(b.hir["body"], b.hir.get("params"))
+
+    def local_ok(path, depth=0):
+        """a crate-local function all of whose results come from parse_rsca"""
+        cb = next((x for x in bn.bodies if x.path == path and x.hir and x.kind != "closure"), None)
+        if cb is None or depth > 2:
+            return False
+        cbinds = Bindings(cb.hir["body"], cb.hir.get("params"))
+        vals = [cb.hir["body"]] + [y["a"] for y in hirq.walk(cb.hir["body"]) if y["e"] == "ret" and y.get("a") is not None and not y.get("exp")]
+        srcs = set()
+        for v in vals:
+            srcs |= _value_sources(v, cbinds)
+        return bool(srcs) and all(s == ("call", PARSE) or (s[0] == "call" and s[1].startswith("asca_bin::") and local_ok(s[1], depth + 1)) for s in srcs)
+
+    # the parser fields that cache rule lists, and what is put into them
+    field_ok = {}
+    for fb in bn.bodies:
+        if fb.in_test_mod() or not fb.hir or fb.kind == "closure" or not fb.path.startswith("asca_bin::cli::config::parser::Parser::"):
+            continue
+        fbinds = None
+        for x in hirq.walk(fb.hir["body"]):
+            if x["e"] == "mcall" and x["name"] in ("insert", "push", "or_insert", "or_insert_with", "extend") and x["args"]:
+                rv = hirq.strip(x["recv"])
+                # self.F.insert(k, v) / self.F.entry(k).or_insert(v)
+                while rv.get("e") == "mcall" and rv["name"] in ("entry", "get_mut", "unwrap"):
+                    rv = hirq.strip(rv["recv"])
+                if rv.get("e") == "field" and hirq.strip(rv["a"]).get("local") == "self":
+                    fbinds = fbinds or Bindings(fb.hir["body"], fb.hir.get("params"))
+                    field_ok.setdefault(rv["name"], []).append((fb, x, _value_sources(x["args"][-1], fbinds)))
+
+    def judge(srcs, seen=()):
+        bad = []
+        for s in srcs:
+            if s == ("call", PARSE):
+                continue
+            if s[0] == "call" and s[1].startswith("asca_bin::") and local_ok(s[1]):
+                continue
+            if s[0] == "self" and s[1] in field_ok and s[1] not in seen:
+                for fb, x, vs in field_ok[s[1]]:
+                    bad += ["%s (stored into self.%s at %s)" % (w, s[1], fn_loc(fb, x.get("ln"))) for w in judge(vs - {("self", s[1])}, seen + (s[1],))]
+                continue
+            bad.append("%s %s" % s)
+        return bad
+
+    n = 0
+    for x in hirq.walk(b.hir["body"]):
+        arg = None
+        if x["e"] == "mcall" and (x.get("def") or "").endswith("Parser::parse_entry") and x["args"]:
+            arg, what = x["args"][0], "parse_entry"
+        elif x["e"] == "call" and (hirq.strip(x["f"]).get("path") or "").endswith("Entry::from") and len(x["args"]) >= 2:
+            arg, what = x["args"][1], "Entry::from"
+        if arg is None:
+            continue
+        n += 1
+        bad = judge(_value_sources(arg, binds))
+        r.inst("get_entry: the rule list given to %s is the file as parse_rsca read it" % what, fn_loc(b, x.get("ln")), "ok" if not bad else "report")
+        if bad:
+            r.report("CLI-13|get_entry|%s" % what, fn_loc(b, x.get("ln")), b.path,
+                     "the rule list given to %s is not (only) what parse_rsca returned for the file: it is built from %s -- a later reference to the same rule file starts from a list an earlier reference's `!`/`~` filter already reduced, so an unfiltered reference runs only part of the file"
+                     % (what, "; ".join(sorted(set(bad)))[:300]))
+    if n < 2:
+        raise AnchorMissing("CLI-13: %d hand-overs of a rule list in get_entry (expected 2: parse_entry, Entry::from)" % n)
+    return r
